@@ -6,6 +6,8 @@ pub mod events;
 pub mod genr;
 pub mod props;
 pub mod run;
+pub mod shapes;
+pub mod driver;
 pub mod ops;
 pub mod payload;
 pub mod rng;
